@@ -35,7 +35,7 @@ package ringbuffer
 //@   requires[C14.new.size] size >= 1
 //@   ensures[C14.new.inv] ringInv(result)
 //@   ensures[C14.new.empty] result.len == 0
-//@   ensures[C14.new.fresh] fresh(result)
+//@   ensures[C14.new.fresh] fresh(result) && result != nil
 
 //@ func (*RingBuffer).Push(item)
 //@   props C14 C01 C03
